@@ -12,7 +12,8 @@ RULE = ("seeded forests of roots / rooted nodes / unrooted nodes (Node and Array
         "(unsupported metadata value deep in the tree or on a single unrooted node, write mode on an existing file, append onto a non-EMD HDF5 file, an emdpath that does not exist, name collision); observations: full snapshot of "
         "all caller objects (tree shape, names, roots, metadata identity and content, data tokens, list length and item identity) "
         "before and after, re-addability of every unrooted node, and a second save of the same input to a second fresh path "
-        "(file walks compared with the UUID blanked); non-trivial = list input or failing save; distinct by recipe hash")
+        "(file walks compared with the UUID blanked); PointLists of 0 / 1 / n points and of one 0-dimensional record, value, shape "
+        "and IDENTITY of every data array before and after, Roots called `<child>_root`; non-trivial = list input or failing save; distinct by recipe hash")
 
 
 class Objs:
